@@ -25,7 +25,8 @@ def s1f13_body(from_host):
 
 
 def s1f14_body(ack, from_host):
-    return b"\x01\x02\x21\x01" + bytes([ack]) + (b"\x01\x00" if from_host else b"\x01\x02\x41\x04mdln\x41\x03rev")
+    commack = b"\x21\x00" if ack == 256 else b"\x21\x02\x00\x00" if ack == 257 else b"\x21\x01" + bytes([ack])
+    return b"\x01\x02" + commack + (b"\x01\x00" if from_host else b"\x01\x02\x41\x04mdln\x41\x03rev")
 
 
 def run_trace(job):
@@ -78,6 +79,8 @@ def run_trace(job):
                 return
             for fr_ in link.parse_frames(data)[0]:
                 if fr_.get("stype") == 0 and fr_["s"] == 1 and fr_["f"] == 13:
+                    if h.communication_state.current.name != "WAIT_CRA":
+                        continue          # a stale request that was queued while the link was down, not this attempt's
                     ack, arm["ack"] = arm["ack"], None
                     arm["snap"] = {"frames": data_frames(None), "comm": len(comm), "cb": len(cbs), "cm": h.communication_state.current.name,
                                    "now": s.now}
@@ -133,6 +136,8 @@ def run_trace(job):
                     return
                 fact["link"] = "down"
             elif k == "Timer":
+                if h.communication_state.current.name not in ("WAIT_CRA", "WAIT_DELAY"):
+                    continue          # the history was generated along another branch of the monitor: no attempt cycle pending here
                 nd = s.next_deadline()
                 if nd is None or nd - s.now > 1e5:
                     if h.communication_state.current.name in ("WAIT_CRA", "WAIT_DELAY"):
